@@ -741,10 +741,14 @@ class DataCoordinate:
             raise ValueError("Unable to determine a usable universe")
 
         dataId = cls.standardize(simple.dataId, universe=universe)
-        if simple.records:
-            dataId = dataId.expanded(
+        if simple.records is not None:
+            # Elements whose record is None (NULL in the database) are left out
+            # of the serialized form; they come back as None, not as missing.
+            records: dict[str, DimensionRecord | None] = dict.fromkeys(dataId.dimensions.elements)
+            records.update(
                 {k: DimensionRecord.from_simple(v, universe=universe) for k, v in simple.records.items()}
             )
+            dataId = dataId.expanded(records)
         if cache is not None:
             cache[key] = dataId
         return dataId
